@@ -1193,6 +1193,11 @@ class Suspender(Interrupter):
             return aux
 
         if not aux.done: #not done so active
+            if aux.original and aux.main is not self._act.frame:
+                # active as auxiliary of some other frame so not ours to run
+                console.concise("    Aux '{0}' in use by another frame\n".format(aux.name))
+                return None
+
             aux.segue()
             aux.recur()
 
